@@ -155,12 +155,28 @@ ADD8 = {
  "C17": " A datagram waits for a slow (throttled) reader: the server loop hands it to the association's queue with a send that is not abandoned when the queue is full.",
 }
 
+ADD9 = {
+ "C01": " The tee handler never closes the branch's pipe itself (next may be the router's continuation, which returns while later routes still read through the tee).",
+ "C02": " On every path of the route loop the matching deadline is removed before the fallback runs, also after an earlier non-terminal match.",
+ "C03": " A new connection's matching buffer is proven empty on the server and the listener-wrapper path alike (the relay starts with the client's own bytes).",
+ "C04": " Foreign parsers that allocate what the peer announces (frozen table: http2.Framer.ReadFrame) have their limit set to a constant of at most 64 KiB + 1 KiB before every read; the request the http matcher keeps for later matchers is the prepared one.",
+ "C06": " Verdict tables hold proper prefixes of a two-chunk Winbox message (need-more, not 'no').",
+ "C07": " The tls matcher sets its placeholders from the parsed hello before the first handshake sub-matcher is asked.",
+ "C08": " Wrap gives the new connection no storage of the receiver's (pooled) buffer, evaluated over the receiver's buffer states; a map taken from a sync.Pool is cleared before it is read.",
+ "C09": " No handler closes the connection it was given (a second Close of a UDP association's virtual connection ends the process).",
+ "C10": " A failed dial is remembered on the peer that was dialed, not on its siblings (dialPeers over all outcomes).",
+ "C11": " Every failed dial - plain or TLS, dial or header write - is counted on the peer (dialPeers over all outcomes); Upstream.peers is assigned only while provisioning.",
+ "C12": " Provision of the proxy_protocol handler, evaluated on concrete allow lists with placeholders resolved from a fixed environment, makes exactly one rule per entry and fails for an entry that resolves to nothing or to no address.",
+ "C13": " The tls handler appends the state of a new termination at the end of tls_connection_states (the listener wrapper exposes the last element).",
+ "C15": " The tls matcher's Caddyfile (nested handshake matchers, repeated lines add up) and the tls handler's certificate selection (repeated serial_number lines add up) are in the tables; a placeholder allow entry of the proxy_protocol handler provisions.",
+}
+
 checks = []
 for p in props:
     if p["id"] not in CLAIMS:
         continue
     tech, text, ref = CLAIMS[p["id"]]
-    text = text + ADD6.get(p["id"], "") + ADD7.get(p["id"], "") + ADD8.get(p["id"], "")
+    text = text + ADD6.get(p["id"], "") + ADD7.get(p["id"], "") + ADD8.get(p["id"], "") + ADD9.get(p["id"], "")
     checks.append({
         "property_id": p["id"],
         "quick_cmd": "./run.sh %s quick" % p["id"],
